@@ -176,7 +176,7 @@ Proof.
     apply ts_enqueue; [now apply tst_eqb_true|lia|].
     intros Hs. rewrite Hs in *. discriminate.
   - (* EAssoc *)
-    sub_on_task H. inv Hf. injection Hf as <-. split_ands.
+    inv H. sub_on_task H. inv Hf. injection Hf as <-. split_ands.
     eapply upd_task_by_tstep; [exact Hft| |reflexivity].
     apply ts_assoc; [lia| |unfold KSubmission in *; lia|].
     + intros Hs. rewrite Hs in *. discriminate.
@@ -284,14 +284,15 @@ Proof.
         cbn [tasks set_tasks]. rewrite ?Ht. split_ands.
         eapply tasks_step_upd_const; [exact Eft| |reflexivity].
         apply ts_ann_begin; [now apply tst_eqb_true|assumption|unfold KSubmission in *; lia].
-  - (* ECleanupsBegin *) sub_on_coord H. tasks_same.
+  - (* ECleanupsBegin *) inv H. sub_on_coord H. tasks_same.
   - (* ECleanup *) inv H. sub_on_coord H. cbn [tasks set_coords]. rewrite bump_tasks. apply tasks_step_refl.
   - (* ECleanupsEnd *) inv H. sub_on_coord H. tasks_same.
-  - (* EEventSet *) sub_on_coord H. tasks_same.
-  - (* ECallbacksBegin *) sub_on_coord H. tasks_same.
+  - (* EEventSet *) inv H. sub_on_coord H. tasks_same.
+  - (* ECallbacksBegin *) inv H. sub_on_coord H. tasks_same.
   - (* ECallback *) inv H. sub_on_coord H. cbn [tasks set_coords]. rewrite bump_tasks. apply tasks_step_refl.
   - (* ECallbacksEnd *) inv H. sub_on_coord H. tasks_same.
   - (* EAnnEnd *)
+    destruct (busy s a); [discriminate|].
     destruct (find_coord t (coords s)) eqn:Efc; [|discriminate].
     destruct (ann_phase a (c_announcers c)) as [p|]; [|discriminate].
     destruct p as [|p|p]; try discriminate. destruct p as [p|p|]; try discriminate.
